@@ -80,6 +80,9 @@ class DiscriminatorEnumCollector:
         self.schemas = schemas
         self.unified_enums: dict[str, UnifiedDiscriminatorEnum] = {}
         self.variant_enum_skip_list: set[str] = set()
+        # Discriminator values read from each (variant, property) before the property is rewritten,
+        # so a variant shared by several unions contributes its values to every one of them
+        self._variant_discriminator_values: dict[tuple[str | None, str], list[Any]] = {}
 
     def identify_discriminator_properties(self) -> set[tuple[str, str]]:
         """
@@ -299,6 +302,13 @@ class DiscriminatorEnumCollector:
                     f"in variant '{variant_schema.name}' from discriminator mapping: '{disc_value}'."
                 )
 
+            # If still no resolved enum, reuse the values read before another union rewrote the property
+            values_key = (variant_schema.name, property_name)
+            if resolved_enum_values and variant_schema.name:
+                self._variant_discriminator_values.setdefault(values_key, resolved_enum_values)
+            elif not resolved_enum_values:
+                resolved_enum_values = self._variant_discriminator_values.get(values_key)
+
             # If still no enum values found, skip variant
             if not resolved_enum_values:
                 logger.debug(
@@ -346,6 +356,11 @@ class DiscriminatorEnumCollector:
 
             disc_property = variant_schema.properties.get(property_name)
             if disc_property:
+                # A variant shared with an already processed union keeps the alphabetically first
+                # unified enum, so the result does not depend on the order of the schemas
+                if disc_property.name in self.unified_enums and disc_property.name <= unified_name:
+                    continue
+
                 old_generation_name = disc_property.generation_name
                 if old_generation_name and old_generation_name in self.schemas:
                     del self.schemas[old_generation_name]
